@@ -99,7 +99,25 @@ def run(ctx):
         ctx.disagree('stencil_grid', case, mo, D)
         # independent restatement for the failing-input search
         ctx.fail('stencil_grid/not-spec', 'matrix differs from the stencil specification', case)
-    # ---------------- Poisson
+    # ---------------- Poisson: requested dtype and format, both discretisations
+    for grid in [(5,), (4, 3), (1, 4), (2, 3, 2)]:
+        for dt in (np.float32, np.float64, np.complex64, np.complex128, np.int32, np.int64):
+            for fmt in (None, 'csr', 'coo', 'bsr'):
+                for typ in ('FD', 'FE'):
+                    case = dict(poisson=list(grid), type=typ, dtype=np.dtype(dt).name, format=fmt)
+                    try:
+                        Ap = poisson(grid, dtype=dt, format=fmt, type=typ)
+                    except Exception as e:   # noqa
+                        ctx.fail('poisson/raises', repr(e), case)
+                        continue
+                    ctx.count('oracle:poisson/dtype-format')
+                    if Ap.dtype != np.dtype(dt):
+                        ctx.fail('poisson/dtype', 'requested %s, got %s' % (np.dtype(dt).name, Ap.dtype), case)
+                    if fmt is not None and Ap.format != fmt:
+                        ctx.fail('poisson/format', 'requested %s, got %s' % (fmt, Ap.format), case)
+                    Aref = poisson(grid, format='csr', type=typ).toarray()
+                    if not np.array_equal(np.asarray(Ap.toarray(), dtype=complex), Aref.astype(complex)):
+                        ctx.fail('poisson/values-depend-on-dtype', 'entries differ from the float64 matrix', case)
     for grid in [(1,), (2,), (5,), (1, 4), (3, 3), (4, 2), (2, 3, 2), (3, 3, 3), (1, 1, 4)]:
         for typ in ('FD', 'FE'):
             case = dict(poisson=list(grid), type=typ)
@@ -138,7 +156,20 @@ def run(ctx):
         for ti, typ in enumerate(('FE', 'FD')):
             dcase = dict(eps=eps, theta=th, type=typ)
             ctx.mark(dcase)
-            st = np.asarray(diffusion_stencil_2d(epsilon=eps, theta=th, type=typ), dtype=float)
+            raw = diffusion_stencil_2d(epsilon=eps, theta=th, type=typ)
+            st = np.array(raw, dtype=float, copy=True)
+            # the returned array belongs to the caller: post-processing it in place (shift, 1/h^2 scaling) must not change what
+            # a later call with the same arguments returns
+            try:
+                raw[1, 1] += 1.0
+                raw *= 100.0
+            except Exception:   # noqa  (a read-only result would be fine too)
+                pass
+            again = np.asarray(diffusion_stencil_2d(epsilon=eps, theta=th, type=typ), dtype=float)
+            ctx.count('oracle:diffusion/second-call')
+            if again.shape != st.shape or not np.array_equal(again, st):
+                ctx.fail('diffusion_stencil_2d/depends-on-call-history', 'the second call with the same arguments returns a different stencil after the '
+                         'caller modified the first result in place (max difference %.3g)' % _nn(np.abs(again - st).max()), dcase)
             ctx.case(('diffusion', eps, th, typ), True)
             ctx.count('diffusion')
             Cc, Sc = np.cos(float(th)), np.sin(float(th))
